@@ -83,12 +83,8 @@ PROPS = {
              "std.sort/std.set consistency with < (C17), inputs larger than the stated array lengths within one step.",
         ref="DESIGN.md section 6 C08, section 11.4"),
     "C09": dict(
-        text="Bounded model checking of the static analyzer on real syntax trees of fixed shape whose binder and use-site names are "
-             "symbolic (four interned identifiers, one never bound): locals (mutual recursion, repetition), function parameters and "
-             "defaults, import paths inside dead branches, positional-after-named arguments; verdict and error kind equal the "
-             "scoping judgment of the specification.",
-        note="Out: arbitrary nesting depth; object / comprehension / self-outside-object templates are thorough-tier; the run-time "
-             "half of the property (never an unbound variable at run time) needs evaluation.",
+        text="Bounded model checking of the static analyzer on real syntax trees of fixed shape whose binder and use-site names are symbolic (four interned identifiers, one never bound): `local X = E1, Y = E2; B` (mutual recursion, repeated binder, unbound use) and `function(P, Q = D) B` (repeated parameter, default referring to a parameter, unbound use); verdict and error kind equal the scoping judgment of the specification. The run-time counterpart (a variable reference resolves to the innermost binding, closures capture their definition environment) is decided by thorough-tier harnesses on the real do_expr.",
+        note="Out: arbitrary nesting depth; comprehension, object, import-path and call-argument templates exist but were not decided within 25 min (attempt tier); the run-time half over whole programs needs evaluation.",
         ref="DESIGN.md section 6 C09, section 11"),
     "C10": dict(
         text="Bounded model checking of the depth-limit mechanism, which lives inside Evaluator::run: one iteration of the real "
@@ -144,9 +140,10 @@ PROPS = {
 }
 
 # properties whose quick check has been run green on the unchanged tree by me
-READY = {"C04", "C16", "C14", "C05", "C17", "C08", "C10"}
+READY = {"C01", "C02", "C03", "C04", "C05", "C06", "C07", "C08", "C09", "C10", "C14", "C16", "C17", "C18", "C20"}
 
 NA_REASONS = {
+    "C15": "The parser harnesses exist (Parser::parse_root_expr on token vectors `a op1 b op2 c` with symbolic operators, `u a op b`) but CBMC does not decide them: 14-20 GB and no verdict within 30 min at either field-sensitivity setting (arena-allocated AST nodes and span interning make every node a pointer read back from a heap object). They are attempt-tier harnesses, not a claim; print-and-reparse stability is not encodable at all (the code base has no printer).",
     "C19": "No harness of std.format is decided by CBMC: the rendering code builds strings whose length depends on symbolic widths / precisions, String::push of the pinned toolchain needs a model of String::reserve, and with a sound (bounded-growth) model the field-padding and sign / zero-padding harnesses were not decided within 25 min (the first session's verdict-free attempts used an unsound no-op stub). Digits come from core::fmt and fmod, which are out of reach anyway. The harnesses stay as thorough-tier attempts; the two defects found by reading (F5, F6) stay repaired.",
     "C11": "Order-independence is a statement about sequences of whole evaluations (load/eval/gc/eval) sharing memoised thunks, the interner and the import cache; it needs the interpreter loop and Program::new (lexing/parsing/analysing the 2k-line stdlib) inside the encoding, and the GOTO program for a single Evaluator::run already exceeds 22 GB in goto-instrument. No kernel smaller than a whole evaluation carries this property.",
     "C12": "The contract is about a process: exit status, stdout/stderr, -o/-m files, closed or full stdout, environment variables. CBMC/Kani have no model of the OS and reject the FFI calls; main_inner is I/O from its first statement.",
